@@ -13,7 +13,9 @@ RULE = ("seeded programs (chains / DAGs of 1-16 ops over the mapped and unmapped
         "emitted as Python source, instantiated (float64), passed through the real unit_scale() (TorchDynamo path) and executed; "
         "outputs and all input/parameter gradients are compared with an independent interpreter of the DSL under the User-Guide "
         "recipe (residual analysis by networkx ancestor queries), using the returned module's parameters; the re-initialisation of "
-        "Linear/Embedding weights and biases and the untouched original are checked separately; 'replace' cases check that user "
+        "Linear/Embedding weights and biases and the untouched original are checked separately; programs include gating products "
+        "h*g(linear(h)) in both operand orders and PARALLEL residual branches; 'replace' cases (run FIRST in every worker, so leaked "
+        "state would show in later programs) check that user "
         "replacements win. Non-trivial = program contains a mapped op or an addition; distinct = emitted source text.")
 ASSUMPTIONS = ["unit_scaling.functional ops are as established by C01-C06 (the reference calls them)", "programs that Dynamo splits into several graphs are excluded and counted"]
 IMPORTS = ["unit_scaling.transforms", "unit_scaling.transforms._unit_scale", "unit_scaling.transforms.utils", "unit_scaling.functional"]
